@@ -5,8 +5,9 @@ From Model Require Import Base ValueSem.
 From Coq Require Import Lia.
 Local Open Scope nat_scope.
 
+(* a live State owns the scratch of the solver whose dimensions its matrices have *)
 Definition wf (st : list sobj) : Prop :=
-  forall i, so_live (slot st i) = true -> exists nk, so_tmp (slot st i) = TDerived nk.
+  forall i, so_live (slot st i) = true -> exists nk, so_tmp (slot st i) = TDerived (so_shape (slot st i)) nk.
 
 Lemma slot_upd_eq st i x : i < length st -> slot (upd i x st) i = x.
 Proof. intros; unfold slot; apply nth_upd_eq; assumption. Qed.
@@ -15,7 +16,7 @@ Proof. intros; unfold slot; apply nth_upd_neq; assumption. Qed.
 Lemma slot_upd st i j x : slot (upd i x st) j = if (i =? j) && (i <? length st) then x else slot st j.
 Proof. unfold slot. apply nth_upd. Qed.
 
-Lemma wf_upd st i x : wf st -> (so_live x = true -> exists nk, so_tmp x = TDerived nk) -> wf (upd i x st).
+Lemma wf_upd st i x : wf st -> (so_live x = true -> exists nk, so_tmp x = TDerived (so_shape x) nk) -> wf (upd i x st).
 Proof.
   intros H Hx k. rewrite slot_upd. destruct ((i =? k) && (i <? length st)); [exact Hx|apply H].
 Qed.
@@ -24,10 +25,10 @@ Lemma live_of_guard (i j : nat) (b : bool) : (i =? j) || negb b = false -> b = t
 Proof. intros E. apply Bool.orb_false_iff in E. destruct E as [_ E]. apply Bool.negb_false_iff in E. exact E. Qed.
 
 (* a solve on a live State of a well-formed store never fails when Solve provides missing stage vectors *)
-Lemma solve_on_fixed st i m : wf st -> so_live (slot st i) = true ->
+Lemma solve_on_fixed st i m : wf st -> so_live (slot st i) = true -> so_shape (slot st i) = 0 ->
   exists st', solve_on true st i m = Some st' /\ wf st'.
 Proof.
-  intros H Hl. destruct (H i Hl) as [nk E]. unfold solve_on. rewrite E.
+  intros H Hl Hs. destruct (H i Hl) as [nk E]. rewrite Hs in E. unfold solve_on. rewrite E.
   destruct (m <=? nk).
   - exists st. split; [reflexivity | exact H].
   - eexists. split; [reflexivity|]. apply wf_upd; [exact H|]. intros _. cbn. eauto.
@@ -41,18 +42,21 @@ Proof.
     try (destruct ((i =? j) || negb (so_live (slot st j))) eqn:E; cbn [fst snd];
          [split; [assumption|discriminate]|]; apply live_of_guard in E); cbn [fst snd].
   - (* get *) split; [apply wf_upd; [assumption | intros _; cbn; eauto] | discriminate].
-  - split; [apply wf_upd; auto; intros _; apply H; exact E|discriminate].
-  - split; [apply wf_upd; auto; intros _; apply H; exact E|discriminate].
-  - split; [|discriminate]. apply wf_upd; [apply wf_upd; auto; intros _; apply H; exact E|cbn; intros X; discriminate X].
-  - split; [|discriminate]. apply wf_upd; [apply wf_upd; auto; intros _; apply H; exact E|cbn; intros X; discriminate X].
+  - split; [apply wf_upd; auto; intros _; cbn [so_tmp so_shape]; apply H; exact E|discriminate].
+  - split; [apply wf_upd; auto; intros _; cbn [so_tmp so_shape]; apply H; exact E|discriminate].
+  - split; [|discriminate]. apply wf_upd; [apply wf_upd; auto; intros _; cbn [so_tmp so_shape]; apply H; exact E|cbn; intros X; discriminate X].
+  - split; [|discriminate]. apply wf_upd; [apply wf_upd; auto; intros _; cbn [so_tmp so_shape]; apply H; exact E|cbn; intros X; discriminate X].
   - (* set *) destruct (so_live (slot st i)) eqn:E; cbn [fst snd]; split; try assumption; try discriminate.
-    apply wf_upd; auto. intros _. apply H. exact E.
-  - (* solve *) destruct (so_live (slot st i)) eqn:E; cbn [fst snd]; [|split; [assumption|discriminate]].
-    destruct (solve_on_fixed st i stages H E) as [st' [-> Hwf]]. cbn [fst snd]. split; [assumption|discriminate].
+    apply wf_upd; auto. intros _. cbn [so_tmp so_shape]. apply H. exact E.
+  - (* solve *) destruct (so_live (slot st i)) eqn:E; cbn [andb fst snd]; [|split; [assumption|discriminate]].
+    destruct (Nat.eqb_spec (so_shape (slot st i)) 0) as [Hs|Hs]; cbn [fst snd]; [|split; [assumption|discriminate]].
+    destruct (solve_on_fixed st i stages H E Hs) as [st' [-> Hwf]]. cbn [fst snd]. split; [assumption|discriminate].
   - split; [assumption|discriminate].
+  - (* get from the other solver *) split; [apply wf_upd; [assumption | intros _; cbn; eauto] | discriminate].
   - (* solve with another parameter set *)
-    destruct (so_live (slot st i)) eqn:E; cbn [fst snd]; [|split; [assumption|discriminate]].
-    destruct (solve_on_fixed st i m H E) as [st' [-> Hwf]]. cbn [fst snd]. split; [assumption|discriminate].
+    destruct (so_live (slot st i)) eqn:E; cbn [andb fst snd]; [|split; [assumption|discriminate]].
+    destruct (Nat.eqb_spec (so_shape (slot st i)) 0) as [Hs|Hs]; cbn [fst snd]; [|split; [assumption|discriminate]].
+    destruct (solve_on_fixed st i m H E Hs) as [st' [-> Hwf]]. cbn [fst snd]. split; [assumption|discriminate].
 Qed.
 
 (* every operation sequence, of any length, from any well-formed store *)
@@ -73,12 +77,14 @@ Proof.
 Qed.
 
 (* a solve reports the data of its own State: a set on another State never changes it *)
-Theorem solve_reads_own_data st stages i : so_live (slot st i) = true -> wf st ->
+Theorem solve_reads_own_data st stages i : so_live (slot st i) = true -> so_shape (slot st i) = 0 -> wf st ->
   snd (vstep copy_fixed true (st, stages) (OSolve i)) = TkSolve (so_data (slot st i)).
 Proof.
-  intros Hl H. cbn [vstep fst snd]. rewrite Hl.
-  destruct (solve_on_fixed st i stages H Hl) as [st' [-> _]]. reflexivity.
+  intros Hl Hs H. cbn [vstep fst snd]. rewrite Hl, Hs. cbn [andb Nat.eqb].
+  destruct (solve_on_fixed st i stages H Hl Hs) as [st' [-> _]]. reflexivity.
 Qed.
+
+
 
 (* the code before the first repair: GetState; copy; Solve(copy) is undefined behaviour *)
 Theorem copy_then_solve_refuted : In TkUB (vrun copy_sliced true (store0 4 3) [OGet 0; OCopyC 1 0; OSolve 1]).
